@@ -138,23 +138,50 @@ SHARED = {}
 
 def export_all(res, session, how='api'):
     out = []
+    before = archive_view(res)          # the results object as it is before anything is exported
+
+    def run(kind, exporter, record):
+        """one export; an exporter that raises yields a record the judge rejects (never a crash of the check)"""
+        try:
+            s = io.StringIO()
+            exporter.export(s, res)
+            out.append(record(s.getvalue()))
+        except Exception as e:
+            out.append(dict(op='json', valid=False, parsed=[], items=[], err=f'{kind} export raised {type(e).__name__}: {e}'[:160]))
+
+    as_csv = lambda t: csv_record(t, res)
+    as_json = lambda t: json_record(t, res)
+    as_arch = lambda t: archive_record(t, res, session)
     # one long-lived exporter of each kind, reused for every result set of the run (a service would do that)
     if not SHARED:
         SHARED.update(csv=CSVResultsExporter(), json=JSONResultsExporter(), archive=ResultsArchiveWriter())
-    s = io.StringIO(); SHARED['csv'].export(s, res); out.append(csv_record(s.getvalue(), res))
-    s = io.StringIO(); SHARED['json'].export(s, res); out.append(json_record(s.getvalue(), res))
-    s = io.StringIO(); SHARED['archive'].export(s, res); out.append(archive_record(s.getvalue(), res, session))
+    run('csv', SHARED['csv'], as_csv)
+    run('json', SHARED['json'], as_json)
+    run('archive', SHARED['archive'], as_arch)
     # other exporters configured differently are created and used in between (a tab-separated table, an unquoted one, a compact JSON):
     # a default exporter created afterwards must still write the documented format
     import csv as _csv
     for opts in (dict(delimiter='\t'), dict(quoting=_csv.QUOTE_NONE, escapechar='\\'), dict(lineterminator='\r\n', quotechar="'")):
-        CSVResultsExporter(**opts).export(io.StringIO(), res)
-    JSONResultsExporter(pretty=False).export(io.StringIO(), res)
-    s = io.StringIO(); CSVResultsExporter().export(s, res); out.append(csv_record(s.getvalue(), res))
-    s = io.StringIO(); JSONResultsExporter().export(s, res); out.append(json_record(s.getvalue(), res))
-    s = io.StringIO(); JSONResultsExporter(pretty=True).export(s, res); out.append(json_record(s.getvalue(), res))
-    s = io.StringIO(); ResultsArchiveWriter().export(s, res); out.append(archive_record(s.getvalue(), res, session))
-    s = io.StringIO(); ResultsArchiveWriter(pretty=True).export(s, res); out.append(archive_record(s.getvalue(), res, session))
+        try:
+            CSVResultsExporter(**opts).export(io.StringIO(), res)
+        except Exception:
+            pass
+    run('json', JSONResultsExporter(pretty=False), as_json)
+    run('csv', CSVResultsExporter(), as_csv)
+    run('json', JSONResultsExporter(), as_json)
+    run('json', JSONResultsExporter(pretty=True), as_json)
+    run('archive', ResultsArchiveWriter(), as_arch)
+    run('archive', ResultsArchiveWriter(pretty=True), as_arch)
+    # exporting must not change the results object it is given: the same object after all exports, compared with its state before
+    r = dict(op='archive', ok=True, equal=False, a=before, b={}, err='')
+    try:
+        r['b'] = archive_view(res)
+        r['equal'] = r['b'] == before
+    except Exception as e:
+        r['ok'] = False
+        r['err'] = f'results object damaged by exporting: {type(e).__name__}: {e}'[:160]
+        r['b'] = dict(failed=True)
+    out.append(r)
     return out
 
 
